@@ -347,7 +347,7 @@ package server
 // getMsgsOK: every message appended to msgCh so far is a single-entry response of a selected kind, tagged with a
 // known network instance, whose key is installed in that instance's table of that kind.
 //@ unit Server.doGet
-//@ requires s != nil && s.masterRIB != nil && ribReady(s.masterRIB) && ribKeysOK(s.masterRIB)
+//@ requires s != nil && s.masterRIB != nil && ribReady(s.masterRIB)
 //@ requires[wire-valid] req != nil ==> oneofOK(req.NetworkInstance)
 //@ ensures[done-once] len(sent(doneCh)) == old(len(sent(doneCh))) + 1
 //@ ensures[nil-req] req == nil ==> len(sent(errCh)) == old(len(sent(errCh))) + 1 && len(sent(msgCh)) == old(len(sent(msgCh))) && errCode(sent(errCh)[old(len(sent(errCh)))]) == codes.InvalidArgument
@@ -373,7 +373,7 @@ package server
 //@ ensures[rib-untouched] ribState == old(ribState)
 //@ at "netInst.GetRIB(" ghost gotNI = add(gotNI, ni)
 //@ loop 1 at "range netInstances" invariant len(sent(msgCh)) >= old(len(sent(msgCh))) && (forall j in 0..old(len(sent(msgCh))) :: sent(msgCh)[j] == old(sent(msgCh)[j])) && len(sent(doneCh)) == old(len(sent(doneCh)))
-//@ loop 1 invariant ribReady(s.masterRIB) && ribKeysOK(s.masterRIB) && req != nil
+//@ loop 1 invariant ribReady(s.masterRIB) && req != nil
 //@ loop 1 invariant len(sent(errCh)) == old(len(sent(errCh))) + ite(validAFT(req.Aft), 0, 1)
 //@ loop 1 invariant (filter[spb.AFTType_IPV4] <==> (validAFT(req.Aft) && req.Aft == spb.AFTType_IPV4)) && (filter[spb.AFTType_IPV6] <==> (validAFT(req.Aft) && req.Aft == spb.AFTType_IPV6)) && (filter[spb.AFTType_MPLS] <==> (validAFT(req.Aft) && req.Aft == spb.AFTType_MPLS)) && (filter[spb.AFTType_NEXTHOP_GROUP] <==> (validAFT(req.Aft) && req.Aft == spb.AFTType_NEXTHOP_GROUP)) && (filter[spb.AFTType_NEXTHOP] <==> (validAFT(req.Aft) && req.Aft == spb.AFTType_NEXTHOP)) && (filter[spb.AFTType_ALL] <==> req.Aft == spb.AFTType_ALL)
 //@ loop 1 invariant forall j in old(len(sent(msgCh)))..len(sent(msgCh)) :: msgBase(sent(msgCh)[j]) && sent(msgCh)[j].Entry[0].NetworkInstance in dom(s.masterRIB.niRIB)
